@@ -81,6 +81,32 @@ ThAdVee(S)  == \A a \in S : \A s \in Basis6 :
                  IN Scale6(AdDen(Inv(a)), lhs) = VexA6(M)
 \* tr2delta o delta2tr = id   (exact: vex of the skew part)
 ThDelta     == \A s \in Basis6 : Tr2DeltaNum(Delta2Tr(s), 1) = s
+\* ---- planar adjoint (SE(2) as the planar subgroup of SE(3); twist order (vx, vy, w)) ---------------------
+\* For a planar m = [q = (a,0,0,c), t = (x,y,0), d]:  R2 = top-left 2x2 of RotNum(q) / N, t2 = (x, y) / d.
+\*   Ad2(T) = [[R2, (t_y ; -t_x)], [0 0 1]]           (Eade; the library's adjoint2)
+\* numerator over AdDen(m) = N d:  [[d R2', N (y ; -x)], [0, 0, N d]]
+Ad2Num(m) == LET R == RotNum(m.q)  N == QN(m.q) IN
+             << << m.d * R[1][1], m.d * R[1][2],  N * m.t[2] >>,
+                << m.d * R[2][1], m.d * R[2][2], -N * m.t[1] >>,
+                << 0, 0, N * m.d >> >>
+\* homogeneous 3x3 numerator over N d
+Hom2Num(m) == LET H == HomNum(m) IN
+              << << H[1][1], H[1][2], H[1][4] >>, << H[2][1], H[2][2], H[2][4] >>, << 0, 0, H[4][4] >> >>
+Scale3v(k, v) == [i \in 1..3 |-> k * v[i]]
+\* Ad2 is a homomorphism on the planar subgroup, Ad2(T^-1) Ad2(T) = I
+ThAd2Hom(S) == \A a \in S : \A b \in S :
+                 LET c == Compose(a, b) IN
+                 /\ Planar(c)
+                 /\ MScale(AdDen(a) * AdDen(b), Ad2Num(c)) = MScale(AdDen(c), MMul(Ad2Num(a), Ad2Num(b)))
+ThAd2Inv(S) == \A a \in S : MMul(Ad2Num(Inv(a)), Ad2Num(a)) = MScale(AdDen(Inv(a)) * AdDen(a), MId(3))
+\* Ad2(T) s = vee( T [s] T^-1 )   (linear in s)
+ThAd2Vee(S) == \A a \in S : \A s \in Basis3 :
+                 LET lhs == MVec(Ad2Num(a), s)
+                     M   == MMul(MMul(Hom2Num(a), SkewA3(s)), Hom2Num(Inv(a)))
+                 IN Scale3v(AdDen(Inv(a)), lhs) = VexA3(M)
+\* Ad2 is the restriction of the spatial adjoint to the planar twist coordinates (vx, vy, wz) = rows/columns 1, 2, 6
+ThAd2Embed(S) == \A a \in S : LET A == AdNum(a)  ix == <<1, 2, 6>> IN
+                   Ad2Num(a) = [i \in 1..3 |-> [j \in 1..3 |-> A[ix[i]][ix[j]]]]
 \* exp(ad S) = Ad(exp S) at quarter-turn twists about coordinate axes through integer points:
 \* ad(S)^2 and Ad relate through the finite series for a quarter turn - checked by the harness numerically;
 \* here: Ad of a quarter turn about axis e has order 4
